@@ -4,11 +4,12 @@ it to recognise a behaviour-preserving rename of a private helper (see Program._
 Run on the UNCHANGED /repo only (after a fix: commit that renames or adds private symbols)."""
 import json, os, sys
 sys.path.insert(0, os.path.join(os.path.dirname(os.path.abspath(__file__)), ".."))
-from verif.model import Program, private_symbols
+from verif.model import Program, all_signatures, private_symbols
 out = os.path.join(os.path.dirname(os.path.abspath(__file__)), "..", "verif", "anchors.json")
 if os.path.exists(out):
     os.remove(out)
 p = Program()
 syms = {k: v for k, v in private_symbols(p.modules).items() if v}
+syms["signatures"] = all_signatures(p.modules)
 json.dump(syms, open(out, "w"), indent=1, sort_keys=True)
-print(sum(len(v) for v in syms.values()), "private symbols in", len(syms), "scopes")
+print(sum(len(v) for k, v in syms.items() if k != "signatures"), "private symbols;", len(syms["signatures"]), "signatures")
